@@ -35,6 +35,14 @@ theorem async_writers_exact : asyncWriters =
      ("fast/code.go:interrupt", "Async", "sig"),
      ("fast/repl.go:prepareEnv", "Async", "base.SigNone")] := by decide
 
+/-- `Run.interrupt()` turns the interrupt into a debugger request only when BOTH `OptDebugger` and
+    `OptCtrlCEnterDebugger` are set; otherwise it stores `SigInterrupt` (the model's `Cfg.interrupt`, assumption
+    "debugger off") -/
+theorem interrupt_mask_shape :
+    interruptMask = "base.OptDebugger | base.OptCtrlCEnterDebugger" ∧
+    interruptCond = "run.Options&CtrlCDebug == CtrlCDebug" ∧
+    interruptThen = "{ sig = base.SigDebug }" ∧ interruptElse = "{ sig = base.SigInterrupt }" := by decide
+
 /-! ## the polling bound -/
 
 /-- **interrupt_bound (any poll-complete unrolling).**  `Async` set, no panic under way, some activation
